@@ -112,6 +112,22 @@ SCHEMAS = {
         'assocs': [A('R1', 'G', ['H_Id'], 'MC', 'H', ['Id'], '1C')],
         'uniques': {'H': [U('I1', 'Id')], 'G': [U('I1', 'Id')]},
     },
+    # C19: a referential attribute in front of the plain ones, so that positional arguments run through it
+    'ref_first': {
+        'classes': ['T', 'S'],
+        'attrs': {'T': [at('Id', ID)],
+                  'S': [at('T_Id', ID), at('Nm', 'STRING'), at('Id', ID), at('Cnt', 'INTEGER')]},
+        'assocs': [A('R1', 'S', ['T_Id'], 'MC', 'T', ['Id'], '1C')],
+        'uniques': {'T': [U('I1', 'Id')], 'S': [U('I1', 'Id')]},
+    },
+    'ref_middle': {
+        'classes': ['T', 'S'],
+        'attrs': {'T': [at('Id', ID), at('Nm', 'STRING')],
+                  'S': [at('Id', ID), at('T_Id', ID), at('Flag', 'BOOLEAN'), at('W', 'REAL'), at('Alt', ID), at('T_Nm', 'STRING'),
+                        at('Cnt', 'INTEGER')]},
+        'assocs': [A('R1', 'S', ['T_Id'], 'MC', 'T', ['Id'], '1C'), A('R2', 'S', ['T_Nm'], 'MC', 'T', ['Nm'], '1C')],
+        'uniques': {'T': [U('I1', 'Id'), U('I2', 'Nm')], 'S': [U('I1', 'Id')]},
+    },
     # identifiers that are also SQL keywords / cardinality words
     'keywords': {
         'classes': ['M', 'Table'],
